@@ -195,8 +195,29 @@ fn parse_duration_secs(value: &str) -> Result<Duration, String> {
     Ok(Duration::from_secs(secs))
 }
 
+/// Timeout settings as they are deserialized, validated by [TimeoutSettings::new]
+/// before they become [TimeoutSettings].
+#[cfg(feature = "serde")]
+#[derive(Deserialize)]
+struct UncheckedTimeoutSettings {
+    connect: Option<Duration>,
+    read: Option<Duration>,
+    write: Option<Duration>,
+    retries: usize,
+}
+
+#[cfg(feature = "serde")]
+impl TryFrom<UncheckedTimeoutSettings> for TimeoutSettings {
+    type Error = crate::GDError;
+
+    fn try_from(value: UncheckedTimeoutSettings) -> GDResult<Self> {
+        Self::new(value.read, value.write, value.connect, value.retries)
+    }
+}
+
 /// Timeout settings for socket operations
 #[cfg_attr(feature = "serde", derive(Serialize, Deserialize))]
+#[cfg_attr(feature = "serde", serde(try_from = "UncheckedTimeoutSettings"))]
 #[cfg_attr(feature = "clap", derive(clap::Args))]
 #[derive(Debug, Clone, Copy, PartialEq, Eq, Hash, PartialOrd, Ord)]
 pub struct TimeoutSettings {
